@@ -339,3 +339,19 @@ Proof.
   destruct (P c) eqn:Ep; [|reflexivity].
   exfalso. apply mem_false in Hc. apply Hc. apply H2. congruence.
 Qed.
+
+(* the first cell a formula reads is a dependency *)
+Lemma first_read_dep P v0 c d k : P c = Some (Read d k) -> dep P v0 c d.
+Proof.
+  intros Hp n Hn. cbn [scr] in Hn. rewrite Hp in Hn. cbn [evalrec] in Hn.
+  destruct (scr P v0 n d); congruence.
+Qed.
+
+Theorem not_reaching_cycle_normal P s r c :
+  strict_prog P -> wf_init P s -> complete_run P s r ->
+  ~ reaches_cycle P (val s) c -> exists n, scr P (val s) n c = Some (val r c).
+Proof.
+  intros Hs Hw H1 Hn.
+  assert (Ht : forall c t, P c = Some t -> tame P (val s) t) by (intros x t Hx; left; eapply Hs; exact Hx).
+  destruct (final_consistent P s r c Ht Hw H1) as [H|[_ H]]; [exact H | contradiction].
+Qed.
